@@ -39,7 +39,7 @@ func (k Key) String() string {
 	return fmt.Sprintf("k%s'%d", c, int(k.R))
 }
 
-const rankStep = int64(1) << 40
+const rankStep = prepStep // spacing of keys appended / prepended beyond a prepared path
 
 type kvEnt[K comparable, V comparable] struct {
 	k    K
@@ -174,6 +174,9 @@ type kvBox[K comparable, V comparable] struct {
 	calls int           // comparator calls (both comparators)
 	nextV int
 	nextR int
+	// rank mode: ranks fixed by Prepare for the key-creating events (ins / delAbsent) of the path
+	prepared []int64
+	events   int
 }
 
 // comparators given to the container count their calls (only when the system asks for
@@ -709,6 +712,86 @@ func (b *kvBox[K, V]) liveRanks() []int64 {
 	return cs
 }
 
+// Prepare fixes, before a path is replayed, the rank of every key the path will create (rank mode):
+// the path is simulated on a list of event ids to obtain the total order of all keys it ever
+// inserts or probes (a new key is placed directly after its live predecessor), and event i gets
+// rank (position+1)*prepStep.  Keys are therefore evenly spaced however often a path inserts next
+// to the same neighbour, and the fingerprint — which renames ranks by order — does not depend on
+// the concrete numbers.  Keys created beyond the prepared path (state probes, short nested
+// continuations) fall back to midpoints, for which prepStep leaves 20 halvings.
+func (b *kvBox[K, V]) Prepare(path []Op) {
+	if !b.sys.Rank {
+		return
+	}
+	type cell struct{ next int } // total order as a singly linked list over event ids; -1 = end
+	next := []int{}              // next[id]
+	head := -1
+	var live []int // event ids of the live keys in ascending order
+	insertAfter := func(pred int) int {
+		id := len(next)
+		if pred < 0 {
+			next = append(next, head)
+			head = id
+		} else {
+			next = append(next, next[pred])
+			next[pred] = id
+		}
+		return id
+	}
+	_ = cell{}
+	for _, o := range path {
+		switch o.N {
+		case "ins", "delAbsent":
+			g := o.A[0]
+			if g > len(live) {
+				g = len(live)
+			}
+			pred := -1
+			if g > 0 {
+				pred = live[g-1]
+			}
+			id := insertAfter(pred)
+			if o.N == "ins" {
+				live = append(live, 0)
+				copy(live[g+1:], live[g:])
+				live[g] = id
+			}
+		case "del":
+			if r := o.A[0]; r >= 0 && r < len(live) {
+				live = append(live[:r], live[r+1:]...)
+			}
+		case "clear":
+			live = nil
+		}
+	}
+	b.prepared = make([]int64, len(next))
+	pos := int64(0)
+	for id := head; id >= 0; id = next[id] {
+		pos++
+		b.prepared[id] = pos * prepStep
+	}
+	b.events = 0
+}
+
+const prepStep = int64(1) << 20
+
+// newRank: the rank for a key-creating event in gap g
+func (b *kvBox[K, V]) newRank(cs []int64, g int, consume bool) int64 {
+	if b.events < len(b.prepared) {
+		r := b.prepared[b.events]
+		if consume {
+			b.events++
+		}
+		// the prepared rank must lie in the requested gap (a mismatch means the simulation and the
+		// real history disagree — a tool error, never silent)
+		if (g > 0 && g <= len(cs) && r <= cs[g-1]) || (g < len(cs) && r >= cs[g]) {
+			panic(fmt.Sprintf("tool error: prepared rank %d is not inside gap %d of %v", r, g, cs))
+		}
+		return r
+	}
+	return gapRank(cs, g)
+}
+
 func gapRank(cs []int64, g int) int64 {
 	n := len(cs)
 	switch {
@@ -807,7 +890,10 @@ func (b *kvBox[K, V]) Ops() []Op {
 }
 
 // resolve turns an op into (kind, key, value)
-func (b *kvBox[K, V]) resolve(o Op) (kind string, k K, v V) {
+func (b *kvBox[K, V]) resolve(o Op) (kind string, k K, v V) { return b.resolveC(o, false) }
+
+// resolveC: consume = true when the operation is really performed (Do), false for Describe
+func (b *kvBox[K, V]) resolveC(o Op, consume bool) (kind string, k K, v V) {
 	s := b.sys
 	if s.Pos {
 		switch o.N {
@@ -834,7 +920,7 @@ func (b *kvBox[K, V]) resolve(o Op) (kind string, k K, v V) {
 		var key Key
 		switch o.N {
 		case "ins":
-			key = Key{C: Rank(gapRank(cs, o.A[0]))}
+			key = Key{C: Rank(b.newRank(cs, o.A[0], consume))}
 			kind = "put"
 		case "upd":
 			key = Key{C: Rank(cs[o.A[0]])}
@@ -849,7 +935,7 @@ func (b *kvBox[K, V]) resolve(o Op) (kind string, k K, v V) {
 			}
 			kind = "remove"
 		case "delAbsent":
-			key = Key{C: Rank(gapRank(cs, o.A[0]))}
+			key = Key{C: Rank(b.newRank(cs, o.A[0], consume))}
 			kind = "removeAbsent"
 		case "clear":
 			kind = "clear"
@@ -930,7 +1016,7 @@ func (b *kvBox[K, V]) Step(o Op) *Viol {
 func (b *kvBox[K, V]) Content() *Viol { return b.content() }
 
 func (b *kvBox[K, V]) Do(o Op) *Viol {
-	kind, k, v := b.resolve(o)
+	kind, k, v := b.resolveC(o, true)
 	n := len(b.ref)
 	switch kind {
 	case "put":
@@ -1047,7 +1133,7 @@ func (b *kvBox[K, V]) content() *Viol {
 
 func (b *kvBox[K, V]) isRep(e kvEnt[K, V], k K) bool {
 	for _, r := range e.reps {
-		if r == k {
+		if eqv(r, k) {
 			return true
 		}
 	}
